@@ -96,6 +96,11 @@ func seeded(prop string, base uint64, n int, mk func(i int, seed uint64) *k.Spec
 
 // swarm draws schedule-noise settings for a seeded run from its seed.
 func swarm(s *k.Spec, focus string) {
+	if s.Seed == 0 {
+		// (every seeded run once drew the SAME settings because the seed was
+		// filled in only after this call)
+		panic("swarm: the spec has no seed yet")
+	}
 	u := k.H(s.Seed, "swarm", 0)
 	switch u % 10 {
 	case 0, 1:
